@@ -172,7 +172,7 @@ Proof.
 Qed.
 
 (* ---------------------------------------------------------------- SaveBlock as a whole *)
-From ELA Require Import proof.C06_Ledger proof.C13_ProgressU.
+From ELA Require Import proof.Ledger_base proof.C06_Ledger proof.C13_ProgressU.
 
 (* SaveBlock returns Ok on every block that extends the tip and that
    validation lets through, in every state consistent with a chain. *)
@@ -190,4 +190,57 @@ Proof.
     destruct (utxo_connect_ok (txidx_connect (s_txidx s) b) (s_addr s) b) as [ad Had].
     + apply refs_known_resolved; [exact Hk | apply (vb_fresh _ _ V)].
     + rewrite Had. cbn [bind]. eexists; reflexivity.
+Qed.
+
+(* ---------------------------------------------------------------- RollbackBlock after SaveBlock *)
+Lemma block_no_self_ref s c b : inv s c -> valid_block s b ->
+  forall op, In op (block_spends b) -> ~ In (fst op) (ids (b_txs b)).
+Proof.
+  intros I V op Hop Hin. unfold ids in Hin. apply in_map_iff in Hin. destruct Hin as (t & Hid & Ht).
+  assert (E : s_unspent s (t_id t) = []).
+  { apply (inv_fresh_empty s c); [exact I|]. apply (inv_txidx _ _ I). apply (vb_fresh _ _ V). exact Ht. }
+  pose proof (vb_unspent _ _ V op Hop) as Hu. rewrite <- Hid, E in Hu. exact Hu.
+Qed.
+
+(* RollbackBlock of the block SaveBlock has just connected returns Ok. *)
+Theorem rollback_after_save_ok cf s c b s1 :
+  inv s c -> valid_block s b ->
+  (forall t, In t (b_txs b) -> t_cb t = false -> refs_known s t = true) ->
+  save_block s b = Ok s1 ->
+  exists s2, rollback_block cf s1 b = Ok s2.
+Proof.
+  intros I V Hk Hs. destruct (save_block_fields _ _ _ Hs) as (Hprev & Htip & Htx & Hun & Had).
+  assert (Hfresh : forall t, In t (b_txs b) -> s_unspent s (t_id t) = []).
+  { intros t Ht. apply (inv_fresh_empty s c); [exact I|]. apply (inv_txidx _ _ I). apply (vb_fresh _ _ V). exact Ht. }
+  pose proof (block_no_self_ref s c b I V) as Hself.
+  unfold rollback_block. rewrite Htip, N.eqb_refl. cbn [negb].
+  destruct (rollback_processors_fields cf s1 b) as [F1 [F2 [F3 [F4 F5]]]]. rewrite F2, F3, F4.
+  rewrite Htx.
+  destruct (txidx_disconnect_after_connect_ok b (s_txidx s) (vb_ids _ _ V)) as [m' [Hm' Hval]].
+  rewrite Hm'. cbn [bind].
+  destruct (unspent_disconnect_ok (s_unspent s1) b (vb_ids _ _ V)) as [un Hund].
+  - intros t Ht Ho. rewrite (unspent_connect_key _ _ _ (t_id t) Hun Hfresh).
+    rewrite kf_txs_noref.
+    + rewrite (Hfresh t Ht). cbn [app]. intro E.
+      assert (Hin : forall x, In x (idxs (length (t_outs t))) ->
+                In x (flat_map (fun t0 => if t_id t0 =? t_id t then idxs (length (t_outs t0)) else []) (b_txs b))).
+      { intros x Hx. apply in_flat_map. exists t. split; [exact Ht|]. rewrite N.eqb_refl. exact Hx. }
+      destruct (t_outs t) as [|o os] eqn:Eo; [now apply Ho|].
+      specialize (Hin 0). rewrite E in Hin. apply Hin. apply idxs_in. simpl. apply Nat.lt_0_succ.
+    + intros op Hop E. apply (Hself op Hop). rewrite E. unfold ids. now apply in_map.
+  - rewrite Hund. cbn [bind].
+    destruct (utxo_disconnect_ok m' (s_addr s1) b) as [ad Hadd].
+    + intros t op Ht Ecb Hin. specialize (Hk t Ht Ecb). unfold refs_known in Hk.
+      rewrite forallb_forall in Hk. specialize (Hk op Hin).
+      assert (Hop : In op (block_spends b)).
+      { unfold block_spends. apply in_flat_map. exists t. split; [exact Ht|]. unfold spends. rewrite Ecb. exact Hin. }
+      rewrite Hval.
+      destruct (existsb (N.eqb (fst op)) (ids (b_txs b))) eqn:Eex.
+      { exfalso. apply (Hself op Hop). apply existsb_eqb_in. exact Eex. }
+      destruct (s_txidx s (fst op)) as [[rh rt]|] eqn:E; [|discriminate].
+      apply Nat.ltb_lt in Hk. destruct (nth_error (t_outs rt) (N.to_nat (snd op))) as [ro|] eqn:En.
+      * exists rh, rt, ro. split; [reflexivity | exact En].
+      * apply nth_error_None in En. exfalso. apply (Nat.lt_irrefl (length (t_outs rt))).
+        eapply Nat.le_lt_trans; [exact En | exact Hk].
+    + rewrite Hadd. cbn [bind]. eexists; reflexivity.
 Qed.
